@@ -73,6 +73,10 @@ func genRdOp(t *Tape, kind int, start, qty int, server string, unit byte) rdOp {
 			if i > 0 && t.Chance(1, 4) {
 				f.Address = o.Field[len(o.Field)-1].Address // several definitions over one register (bits of a status word)
 			}
+			if (f.Type == modbus.FieldTypeUint16 || f.Type == modbus.FieldTypeInt16) && t.Chance(1, 3) {
+				// a byte order on a 16-bit definition: whatever it means for that field, it is that field's business only
+				f.ByteOrder = byteOrders[t.Choose(len(byteOrders))]
+			}
 			o.Field = append(o.Field, f)
 			if t.Chance(1, 8) {
 				o.Field = append(o.Field, o.Field[t.Choose(len(o.Field))]) // the same definition listed twice
